@@ -5,6 +5,7 @@ INVOKEs pipelined in the same write and again after the reply; validators that a
 raise any exception type. Monitors: execution log of the registered objects (including the DaemonObject subclass passed
 as interface=), first reply parsed by the reference codec, EOF probe."""
 import socket
+import time
 import threading
 
 from vlib import core, gen, fixture, wire
@@ -17,7 +18,7 @@ RULE = ("cases = (first message: CONNECT with a handshake payload shape x valida
         "at least one INVOKE follows the first message")
 ASSUMPTIONS = ["for an unknown serializer id or an exception whose __str__ raises the statement promises no reason: only 'nothing ran' and 'closed' are required",
                "pre-connected socket pairs are exempt and not exercised", "'is closed' = EOF/RST observed within a 10 s watchdog"]
-REQUIRED_REACH = ["reused_tickets_refused", "refused_ok", "accepted_ok", "pipelined_invokes_sent", "validator_raised", "wrong_first_type", "unknown_object", "malformed_first"]
+REQUIRED_REACH = ["sibling_refusals_ok", "reused_tickets_refused", "refused_ok", "accepted_ok", "pipelined_invokes_sent", "validator_raised", "wrong_first_type", "unknown_object", "malformed_first"]
 SHARD_TIMEOUT = {"quick": 240, "thorough": 2800}
 
 
@@ -97,7 +98,52 @@ def make_env(P, servertype):
             raise mk()
         return "welcome"
     fx.daemon.hs_validator = validator
+
+    # a second daemon of the very same Daemon subclass in this process, whose validator refuses everybody: each daemon decides for itself
+    @P.server.expose
+    class SiblingMarker(object):
+        def mark(self, token):
+            log.add("exec", "sibling-mark", token)
+            return "sibling marked"
+
+    def sibling_validator(conn, data):
+        log.add("sibling-validator", repr(data)[:60])
+        raise PermissionError("the sibling daemon admits nobody")
+    fx.sibling = fixture.Fixture(servertype=servertype, daemon_cls=type(fx.daemon), COMMTIMEOUT=0.0)
+    fx.sibling.register(SiblingMarker(), "marker")
+    fx.sibling.daemon.hs_validator = sibling_validator
     return fx, log
+
+
+def sibling_probe(fx, log, rec, r, n):
+    """the main daemon has admitted connections by now; its sibling (same class, other validator) must still refuse, and run nothing"""
+    P = fx.P
+    ser = P.serializers.serializers[r.choice(fixture.SERIALIZERS)]
+    pay = {"sibling_probe": True, "servertype": fx.servertype}
+    rec.case(("sibling", n, fx.servertype), nontrivial=True)
+    before = len(log.of("exec"))
+    try:
+        c = wire.RawClient(fx.sibling.location, timeout=5.0)
+        c.send(wire.encode(wire.CONNECT, 0, 0, ser.serializer_id, ser.dumps({"handshake": {"mode": "accept", "token": "sib%d" % n}, "object": "marker"}))
+               + invoke_bytes(P, ser, "marker", "mark", ("sib%d" % n,), 1))
+        try:
+            m = c.recv_msg()
+        except (EOFError, OSError):
+            m = None
+        time.sleep(0.05)
+        c.close()
+    except OSError as x:
+        rec.inconc("sibling probe could not connect: %r" % (x,))
+        return
+    ran = [e for e in log.of("exec")[before:] if e[2] == "sibling-mark"]
+    if (m is not None and m.type == wire.CONNECTOK) or ran:
+        rec.violation("handshake-accepted-wrongly:sibling-daemon", "a daemon whose own validator refuses everybody answered %s and ran %r: another daemon's validator decided" % (
+            describe_reply(P, m) if m is not None else "nothing", ran), pay)
+        return
+    if not log.of("sibling-validator"):
+        rec.violation("validator-not-consulted:sibling-daemon", "the sibling daemon refused without consulting its own validator (reply %s)" % (describe_reply(P, m) if m is not None else "none"), pay)
+        return
+    rec.count("sibling_refusals_ok")
 
 
 def invoke_bytes(P, ser, objid, method, args, seq):
@@ -423,6 +469,8 @@ def run_shard(shard, rec):
                 break
             c = gen_case(r, shard["i"] * 100000 + n)
             run_case(fx, log, c, rec, r)
+            if n % 25 == 24:
+                sibling_probe(fx, log, rec, r, n)
             if not fx.loop_alive():
                 rec.violation("daemon-loop-died", "request loop stopped after case %s: %r" % (describe(c), fx.loop_exc), dict(c, servertype=fx.servertype))
                 break
@@ -430,6 +478,7 @@ def run_shard(shard, rec):
             if kind == "thread-exception":
                 rec.violation("server-thread-fault", text, None)
     finally:
+        fx.sibling.stop()
         fx.stop()
 
 
@@ -438,6 +487,13 @@ def replay(payload, rec):
     st = payload.pop("servertype", "thread")
     fx, log = make_env(P, st)
     try:
-        run_case(fx, log, payload, rec, gen.rng(0, "replay"))
+        if payload.get("sibling_probe"):
+            with fx.proxy("marker") as p:
+                p._pyroHandshake = {"mode": "accept", "token": "warmup"}
+                p.mark("warmup")          # the main daemon admits a connection first
+            sibling_probe(fx, log, rec, gen.rng(0, "replay"), 1)
+        else:
+            run_case(fx, log, payload, rec, gen.rng(0, "replay"))
     finally:
+        fx.sibling.stop()
         fx.stop()
